@@ -16,12 +16,16 @@ import (
 	"sort"
 	"strings"
 	"testing"
+	"time"
 
+	re_blobstore "github.com/buildbarn/bb-remote-execution/pkg/blobstore"
 	"github.com/buildbarn/bb-remote-execution/pkg/builder"
 	re_cas "github.com/buildbarn/bb-remote-execution/pkg/cas"
+	re_clock "github.com/buildbarn/bb-remote-execution/pkg/clock"
 	"github.com/buildbarn/bb-remote-execution/pkg/filesystem/access"
 	"github.com/buildbarn/bb-remote-execution/pkg/filesystem/pool"
 	"github.com/buildbarn/bb-remote-execution/pkg/filesystem/virtual"
+	"github.com/buildbarn/bb-storage/pkg/blobstore"
 	"github.com/buildbarn/bb-storage/pkg/clock"
 	"github.com/buildbarn/bb-storage/pkg/digest"
 	"github.com/buildbarn/bb-storage/pkg/eviction"
@@ -184,6 +188,7 @@ type scenario struct {
 	symf      virtual.SymlinkFactory
 	top       virtual.PrepopulatedDirectory
 	bd        builder.BuildDirectory
+	fileCAS   blobstore.BlobAccess
 	filePool  pool.FilePool
 	elog      *collectingErrorLogger
 	actions   []*action
@@ -305,14 +310,23 @@ func newScenario(t *testing.T, tr *common.Trace, r *rand.Rand, nDirs int) *scena
 		virtual.NoNamedAttributesFactory)
 	s.symf = virtual.NewHandleAllocatingSymlinkFactory(virtual.NewBaseSymlinkFactory(das), s.ha.New(), path.LocalFormat)
 	cdf := virtual.NewHandleAllocatingCharacterDeviceFactory(virtual.BaseCharacterDeviceFactory, s.ha.New())
-	s.bd = builder.NewVirtualBuildDirectory(s.top, s.fetcher, w.cas, s.symf, cdf, s.ha, das, clock.SystemClock)
+	// Like bb_worker: directory fetcher and CAS behind the suspending
+	// decorators of a real SuspendableClock (in half of the scenarios).
+	s.fileCAS = w.cas
+	suspending := r.Intn(2) == 0
+	if suspending {
+		sc := re_clock.NewSuspendableClock(clock.SystemClock, time.Hour, time.Second/10)
+		s.fetcher = re_cas.NewSuspendingDirectoryFetcher(s.fetcher, sc)
+		s.fileCAS = re_blobstore.NewSuspendingBlobAccess(w.cas, sc)
+	}
+	s.bd = builder.NewVirtualBuildDirectory(s.top, s.fetcher, s.fileCAS, s.symf, cdf, s.ha, das, clock.SystemClock)
 	s.filePool = pool.NewBlockDeviceBackedFilePool(&memBlockDevice{data: make([]byte, 64*512)}, pool.NewBitmapSectorAllocator(64), 512)
 
 	for i := 0; i < maxActions; i++ {
 		s.actions = append(s.actions, &action{id: fmt.Sprintf("a%d", i), known: map[string]string{}, explored: map[string]bool{}, kcache: map[string]virtual.Directory{}})
 	}
 	s.info = common.Ev{"ev": "info", "cache": cacheMode, "handles": []string{"fuse", "nfs"}[haMode], "shuffle": shuffle,
-		"pfault": s.pFault, "digestfn": w.df.GetEnumValue().String()}
+		"pfault": s.pFault, "digestfn": w.df.GetEnumValue().String(), "suspending": suspending}
 	return s
 }
 
@@ -424,7 +438,7 @@ func (s *scenario) startAction(a *action, mode string, root digest.Digest) {
 
 func (s *scenario) casFileFactory() virtual.CASFileFactory {
 	return virtual.NewStatelessHandleAllocatingCASFileFactory(
-		virtual.NewBlobAccessCASFileFactory(s.ctx, s.w.cas, s.elog),
+		virtual.NewBlobAccessCASFileFactory(s.ctx, s.fileCAS, s.elog),
 		s.ha.New())
 }
 
@@ -1067,6 +1081,21 @@ func (s *scenario) opRename(a *action) {
 	if s.r.Intn(2) == 0 {
 		nname = []string{"n1", "n2", "a", "b"}[s.r.Intn(4)]
 	}
+	if s.r.Intn(4) == 0 {
+		// leaf onto leaf of the same kind: replaces the target, or has no
+		// effect when both names are links to one object
+		ls := s.knownOfKind(a, []string{"file", "symlink"}[s.r.Intn(2)])
+		if len(ls) >= 2 {
+			sp := splitKey(ls[s.r.Intn(len(ls))])
+			dp := splitKey(ls[s.r.Intn(len(ls))])
+			dir, name = sp[:len(sp)-1], sp[len(sp)-1]
+			ndir, nname = dp[:len(dp)-1], dp[len(dp)-1]
+		}
+	}
+	s.renameAt(a, dir, name, ndir, nname)
+}
+
+func (s *scenario) renameAt(a *action, dir []string, name string, ndir []string, nname string) {
 	src := append(cp(dir), name)
 	dst := append(cp(ndir), nname)
 	// Moving a directory below itself is not attempted: the real code
@@ -1280,6 +1309,58 @@ func (s *scenario) opPut(a *action) {
 	}
 }
 
+// opLinkPair places two leaves that the handle allocator may deduplicate
+// into one object (same symlink target, or same digest and executable bit
+// from one CAS file factory) and renames one onto the other: POSIX says
+// this has no effect when both names are links to one file.
+func (s *scenario) opLinkPair(a *action) {
+	dir := s.pickDir(a)
+	children := map[path.Component]virtual.InitialChild{}
+	kids := []putKid{}
+	names := []string{"p", "q"}
+	if s.r.Intn(2) == 0 {
+		target := symlinkTargets[s.r.Intn(len(symlinkTargets))]
+		for _, n := range names {
+			leaf, err := s.symf.LookupSymlink(path.UNIXFormat.NewParser(target))
+			if err != nil {
+				return
+			}
+			children[path.MustNewComponent(n)] = virtual.InitialChild{}.FromLeaf(leaf)
+			kids = append(kids, putKid{Name: n, Kind: "symlink", Size: -1, Target: target})
+		}
+	} else {
+		b := s.w.blobs[s.r.Intn(len(s.w.blobs))]
+		exec := s.r.Intn(2) == 0
+		f := s.casFileFactory()
+		for _, n := range names {
+			children[path.MustNewComponent(n)] = virtual.InitialChild{}.FromLeaf(f.LookupFile(b.d, exec, nil))
+			kids = append(kids, putKid{Name: n, Kind: "casfile", Blob: s.w.ids.id(b.d), Size: b.d.GetSizeBytes(), Exec: exec})
+		}
+	}
+	s.touch(a)
+	pd, _, ok := s.pdir(a, dir)
+	if !ok {
+		return
+	}
+	var err error
+	s.aim(a, dir)
+	faults, panicked := s.guarded(a, "put", true, func() { err = pd.CreateChildren(children, true) })
+	if panicked {
+		return
+	}
+	s.tr.Emit(common.Ev{"ev": "put", "a": a.id, "dir": dispPath(dir), "overwrite": true, "kids": kids,
+		"ok": err == nil, "st": errName(err), "faults": faults})
+	if err != nil {
+		return
+	}
+	for _, k := range kids {
+		q := append(cp(dir), k.Name)
+		s.forget(a, q)
+		a.known[pathKey(q)] = map[string]string{"casfile": "file", "symlink": "symlink"}[k.Kind]
+	}
+	s.renameAt(a, dir, "p", dir, "q")
+}
+
 // opMergeSub: MergeDirectoryContents into a subdirectory.
 func (s *scenario) opMergeSub(a *action) {
 	dir := s.pickDir(a)
@@ -1347,8 +1428,10 @@ func (s *scenario) step(a *action) {
 		s.opMkdir(a)
 	case x < 92:
 		s.opCreate(a)
-	case x < 97:
+	case x < 96:
 		s.opPut(a)
+	case x < 98:
+		s.opLinkPair(a)
 	default:
 		s.opMergeSub(a)
 	}
